@@ -1,8 +1,10 @@
 import GeosModel.Proofs.WKB.Fuel
 import GeosModel.Proofs.WKB.Main
 import GeosModel.Model.WKB.Resource
-/-! C11 for the WKB reader, part 3: the recursion depth and the allocation are *not* bounded by a constant
-(multiple of the input size): witness families. -/
+/-! C11 for the WKB reader, part 3: witness families.  The recursion depth is *not* bounded by a constant (`nestBytes`);
+the allocation is linear (`Proofs/Readers/WKBAlloc.lean`) and the constant 4 of that bound is attained up to an additive
+constant (`polyHoles`); `over` is the family on which the allocation was quadratic before /repo a208e3db7, kept as a
+regression witness. -/
 namespace GeosModel.WKB
 open GeosModel
 
@@ -82,7 +84,9 @@ theorem readGeom_nest_fuel : ∀ (d : Nat) (o' : Order) (r : List UInt8),
 /-! ### allocation -/
 
 /-- `k` nested collections, level `j` (from the inside) claiming `j − 1` elements — exactly what passes
-`minMemSize` (`remaining / 9`) — and nothing else: 9·k bytes -/
+`minMemSize` (`remaining / 9`) — and nothing else: 9·k bytes.  Before /repo a208e3db7 (child vectors sized from the
+claimed count) this family made the reader request `4 k (k − 1)` bytes; it is the `wkb-over` regression witness of
+`checks/C11.py` (`C11.WKB.wkbOver_eq`, `C11.WKB.alloc_over_linear`). -/
 def over : Nat → List UInt8
   | 0 => []
   | k + 1 => header c0 false false 7 0 ++ (putU32 .le k ++ over k)
@@ -95,40 +99,75 @@ theorem over_length (k : Nat) : (over k).length = 9 * k := by
     simp [header, c0, putU32_length]
     omega
 
-/-- 0 + 8 + 16 + … + 8(k−1) -/
-def tri : Nat → Nat
-  | 0 => 0
-  | k + 1 => tri k + 8 * k
+/-- `k` empty linear rings (a zero size word each) -/
+def emptyRings : Nat → List UInt8
+  | 0 => []
+  | k + 1 => putU32 .le 0 ++ emptyRings k
 
-theorem tri_eq (k : Nat) : tri k = 4 * k * (k - 1) := by
+theorem emptyRings_length (k : Nat) : (emptyRings k).length = 4 * k := by
   induction k with
   | zero => rfl
-  | succ j ih =>
-    cases j with
-    | zero => rfl
-    | succ i =>
-      simp only [tri] at ih ⊢
-      simp only [Nat.add_sub_cancel] at ih ⊢
-      grind
+  | succ k ih => simp only [emptyRings, List.length_append, putU32_length, ih]; omega
 
-theorem allocGeom_over : ∀ (k fuel : Nat) (o : Order), k ≤ fuel → k < 4294967296 → tri k ≤ allocGeom arc fuel o (over k)
-  | 0, _, _, _, _ => by simp [tri]
-  | k + 1, fuel, o, hk, hlt => by
-    cases fuel with
-    | zero => omega
-    | succ f =>
-      have hh := readHeader_header c0 o false false 7 0 .collection rfl (by omega) sridFits_zero
-        (putU32 .le k ++ over k)
-      have hkm : k % 4294967296 = k := by omega
-      have hg : ¬ ((over k).length < k * 9) := by rw [over_length]; omega
-      simp only [over, allocGeom, hh, allocBody, allocColl]
-      have ho : c0.order = .le := rfl
-      simp only [ho, readU32_putU32, hkm, hg, if_false, tri]
-      cases k with
-      | zero => simp [tri]
-      | succ j =>
-        have ih := allocGeom_over (j + 1) f .le (by omega) (by omega)
-        simp only [allocN]
-        omega
+/-- a polygon of `k + 1` empty rings (an empty shell and `k` empty holes): `13 + 4 k` bytes -/
+def polyHoles (k : Nat) : List UInt8 := header c0 false false 3 0 ++ (putU32 .le (k + 1) ++ emptyRings (k + 1))
+
+theorem polyHoles_length (k : Nat) : (polyHoles k).length = 13 + 4 * k := by
+  simp only [polyHoles, List.length_append, putU32_length, emptyRings_length]
+  simp [header, c0, putU32_length]
+  omega
+
+theorem readRing_empty (o : Order) (z m : Bool) (r : List UInt8) :
+    readRing o z m (putU32 o 0 ++ r) = .ok (⟨z, m, []⟩, r) := by
+  simp [readRing, readSizedSeq, readU32_putU32, readCoordSeq, readCoords, lineOK, ringOK]
+
+theorem allocSized_empty (o : Order) (z m : Bool) (r : List UInt8) : allocSized o z m (putU32 o 0 ++ r) = 0 := by
+  simp [allocSized, readU32_putU32, seqAlloc]
+
+/-- every empty hole is read, and pushed: one slot each -/
+theorem allocRings_empty (z m : Bool) : ∀ (k : Nat) (r : List UInt8),
+    allocRings .le z m k (emptyRings k ++ r) = 16 * k
+  | 0, r => by simp [allocRings]
+  | k + 1, r => by
+    simp only [emptyRings, List.append_assoc, allocRings, allocSized_empty, readRing_empty, slot,
+      allocRings_empty z m k r]
+    rw [Nat.zero_add, Nat.mul_succ, Nat.add_comm]
+
+/-- the polygon with `k` empty holes is charged `16 k` on `13 + 4 k` bytes: the bound `4 · length` is attained up to
+the additive constant 52 -/
+theorem allocGeom_polyHoles (k fuel : Nat) (o : Order) (hk : k + 1 < 4294967296) :
+    allocGeom arc (fuel + 1) o (polyHoles k) = 16 * k := by
+  have hh := readHeader_header c0 o false false 3 0 .polygon rfl (by omega) sridFits_zero
+    (putU32 .le (k + 1) ++ emptyRings (k + 1))
+  have hkm : (k + 1) % 4294967296 = k + 1 := by omega
+  have hg : ¬ ((emptyRings (k + 1)).length < (k + 1) * 4) := by rw [emptyRings_length]; omega
+  have ho : c0.order = .le := rfl
+  have ha := allocRings_empty false false k []
+  simp only [List.append_nil] at ha
+  simp only [polyHoles, allocGeom, hh, allocBody, ho, readU32_putU32, hkm, hg, if_false]
+  simp only [emptyRings, allocSized_empty, readRing_empty, ha]
+  exact Nat.zero_add _
+
+theorem readRings_empty (z m : Bool) : ∀ (k : Nat) (r : List UInt8),
+    readRings .le z m k (emptyRings k ++ r) = .ok (List.replicate k ⟨z, m, []⟩, r)
+  | 0, r => by simp [readRings, emptyRings]
+  | k + 1, r => by
+    simp only [emptyRings, List.append_assoc, readRings, readRing_empty, readRings_empty z m k r, List.replicate_succ]
+
+/-- … and it is accepted (empty shell, only empty holes) -/
+theorem readGeom_polyHoles (k fuel : Nat) (o : Order) (hk : k + 1 < 4294967296) :
+    readGeom arc (fuel + 1) o (polyHoles k) =
+      .ok ((.polygon ⟨false, false, []⟩ (List.replicate k ⟨false, false, []⟩), 0), .le, []) := by
+  have hh := readHeader_header c0 o false false 3 0 .polygon rfl (by omega) sridFits_zero
+    (putU32 .le (k + 1) ++ emptyRings (k + 1))
+  have hkm : (k + 1) % 4294967296 = k + 1 := by omega
+  have hg : ¬ ((emptyRings (k + 1)).length < (k + 1) * 4) := by rw [emptyRings_length]; omega
+  have ho : c0.order = .le := rfl
+  have hr := readRings_empty false false k []
+  simp only [List.append_nil] at hr
+  rw [readGeom_succ]
+  simp only [polyHoles, hh, readBody, ho, readU32_putU32, hkm, hg, if_false]
+  simp only [emptyRings, readRing_empty, hr]
+  simp [c0]
 
 end GeosModel.WKB
